@@ -36,8 +36,24 @@ def linearity(op: Any, rng: Any) -> None:
         LOG.violation('C04', mon, f'{type(op).__name__}.mv/non-finite', 'finite input gave NaN/Inf', expr=dense.describe(op))
 
 
+def batch_dense(rng: Any) -> tuple[Any, Any]:
+    import jax.numpy as jnp
+    from furax._base.dense import DenseBlockDiagonalOperator
+    gen.begin_case(rng)
+    dt = gen.case_dtype(rng)
+    b, n = int(rng.integers(2, 4)), int(rng.integers(2, 4))
+    subs = gen.pick(rng, ['bij,bj->bi', 'kij,kj->ki', 'bji,bj->bi', 'inm,in->im'])
+    s = gen.S((b, n), dt)
+    op = DenseBlockDiagonalOperator(gen.dy(rng, (b, n, n), dt), s, subs)
+    LOG.count('C04.batch-dense', subs)
+    return s, (op.T if rng.integers(2) else op)
+
+
 def case(rng: Any, ctx: Ctx, index: int) -> None:
-    s, op = rand_operator(rng, ctx, atoms=0.5, index=index)
+    if index % 15 == 14:
+        s, op = batch_dense(rng)
+    else:
+        s, op = rand_operator(rng, ctx, atoms=0.5, index=index)
     with quiet():
         try:
             m = dense.matrix(op)
